@@ -46,4 +46,9 @@ pub open spec fn serde_key(c: Seq<Tok>) -> Option<Tok> {
     } else { None }
 }
 pub open spec fn is_serde(c: Seq<Tok>, key: u64) -> bool { serde_key(c) == Some(Tok::T(key)) }
+// A-serde: `default` among the serde arguments of a field makes a missing key acceptable
+pub open spec fn serde_says_default(c: Seq<Tok>) -> bool {
+    c.len() == 2 && c[0] == Tok::T(tok!("serde")) && (c[1] matches Tok::G(VxDelim::Paren, inner) && inner.contains(Tok::T(tok!("default"))))
+}
+pub open spec fn slot_no_default(o: Seq<Tok>) -> bool { o.len() == 0 || (o.len() == 2 && (o[1] matches Tok::G(VxDelim::Bracket, c) && !serde_says_default(c))) }
 pub open spec fn opt_set(x: Option<Seq<Tok>>) -> ISet<Seq<Tok>> { match x { Some(a) => ISet::empty().insert(a), None => ISet::empty() } }
